@@ -5,8 +5,10 @@
 //   c03_options table  OUT
 //        measures Extract(T, token) for T in int/unsigned/string/enum and every token of the
 //        global table with a PLAIN std::istringstream >> (not through fcppt::options)
-//   c03_options record OUT MAXLEN MAXLEN_CHEAP RANDOM_N RANDOM_LEN SEED PART PARTS RUNLEN
+//   c03_options record OUT MAXLEN MAXLEN_CHEAP RANDOM_N RANDOM_LEN SEED PART PARTS RUNLEN [FROM]
+//        drives the shapes with (id - 1) % PARTS == PART and id >= FROM
 //   c03_options replay SCRIPT OUT       SCRIPT: ndjson lines {"s":shape,"a":[token ids]}
+#define C03_UNITS_INCLUDE_WRAP_HEADERS
 #include "c03_options.hpp"
 
 #include <cstdio>
@@ -14,6 +16,11 @@
 #include <cstring>
 #include <sstream>
 #include <string>
+#include <csignal>
+#include <fcntl.h>
+#include <sys/mman.h>
+#include <sys/time.h>
+#include <unistd.h>
 
 #if defined(__SANITIZE_ADDRESS__)
 #include <sanitizer/common_interface_defs.h>
@@ -50,16 +57,39 @@ std::ostream &operator<<(std::ostream &_stream, color const _value)
 // The record prefix is written without flushing (10^7 calls in the thorough tier); the stdio
 // buffer is flushed by the crash / sanitizer-death handlers so that an abort inside a driven call
 // still leaves a truncated line naming the call.
+namespace
+{
+// calls started so far; read by the CPU-time watchdog
+volatile unsigned long progress{0UL};
+
+// The record prefix of the call in progress, kept in a MAP_SHARED page of OUT.cur: whatever kills
+// the process (sanitizer runtime, signal, SIGKILL of a timeout - with the stdio buffer unflushed),
+// the kernel keeps the page, and checks/c03.py reads the call the process died in from there.
+constexpr std::size_t current_size{4096U};
+char *current_call{nullptr};
+}
+
 void driver::begin(std::string const &_prefix)
 {
   std::fputs(_prefix.c_str(), vj::out_file());
   ++calls_;
+  progress = progress + 1UL;
+  if (current_call != nullptr)
+  {
+    std::size_t const n{_prefix.size() < current_size - 1U ? _prefix.size() : current_size - 1U};
+    std::memcpy(current_call, _prefix.data(), n);
+    current_call[n] = '\0';
+  }
 }
 
 void driver::end(std::string const &_rest)
 {
   std::fputs(_rest.c_str(), vj::out_file());
   std::fputc('\n', vj::out_file());
+  if (current_call != nullptr)
+  {
+    current_call[0] = '\0';
+  }
 }
 
 std::string driver::state_json(fcppt::options::state const &_state) const
@@ -89,7 +119,7 @@ void driver::run_all()
 {
   for (shape_info const &info : shapes())
   {
-    if ((info.id - 1) % plan_.parts == plan_.part)
+    if ((info.id - 1) % plan_.parts == plan_.part && info.id >= resume_from())
     {
       info.run(*this);
     }
@@ -104,6 +134,50 @@ void on_death()
   {
     std::fflush(vj::out_file());
   }
+}
+
+// Watchdog on CPU time (independent of the load of the machine): a whole timer period of user
+// CPU time in which no driven call was started means that a call does not return.  The record
+// prefix of that call is flushed (crash_line) so that the truncated line names it; exit code 68.
+void on_cpu_tick(int)
+{
+  static unsigned long last{~0UL};
+  unsigned long const now{progress};
+  if (now == last)
+  {
+    vj::crash_line("hang", SIGALRM);
+    _exit(68);
+  }
+  last = now;
+}
+
+void map_current_call(std::string const &_out)
+{
+  int const fd{::open((_out + ".cur").c_str(), O_RDWR | O_CREAT | O_TRUNC, 0644)};
+  if (fd < 0)
+  {
+    return;
+  }
+  if (::ftruncate(fd, static_cast<off_t>(current_size)) == 0)
+  {
+    void *const p{::mmap(nullptr, current_size, PROT_READ | PROT_WRITE, MAP_SHARED, fd, 0)};
+    if (p != MAP_FAILED)
+    {
+      current_call = static_cast<char *>(p);
+      current_call[0] = '\0';
+    }
+  }
+  ::close(fd);
+}
+
+void start_watchdog()
+{
+  std::signal(SIGVTALRM, on_cpu_tick);
+  struct itimerval timer;
+  timer.it_interval.tv_sec = 4;
+  timer.it_interval.tv_usec = 0;
+  timer.it_value = timer.it_interval;
+  setitimer(ITIMER_VIRTUAL, &timer, nullptr);
 }
 
 template <typename T>
@@ -181,7 +255,7 @@ int main(int argc, char **argv)
     return 0;
   }
   c03::plan plan{};
-  if (mode == "record" && argc == 11)
+  if (mode == "record" && (argc == 11 || argc == 12))
   {
     vj::open(argv[2]);
     plan.max_len = std::atoi(argv[3]);
@@ -192,7 +266,8 @@ int main(int argc, char **argv)
     plan.part = std::atoi(argv[8]);
     plan.parts = std::atoi(argv[9]);
     plan.run_len = std::atoi(argv[10]);
-    if (plan.part == 0)
+    c03::resume_from() = argc == 12 ? std::atoi(argv[11]) : 1;
+    if (plan.part == 0 && c03::resume_from() <= 1)
     {
       c03::describe();
     }
@@ -224,6 +299,8 @@ int main(int argc, char **argv)
     std::fprintf(stderr, "bad arguments\n");
     return 3;
   }
+  c03::start_watchdog();
+  c03::map_current_call(mode == "record" ? argv[2] : argv[3]);
   c03::driver driver{plan};
   driver.run_all();
   vj::close();
